@@ -159,6 +159,9 @@ CLAIMS["C20"] = {
     "design_ref": "DESIGN.md §3 C20",
 }
 
+MIRRORED = {"C01", "C02", "C03", "C04", "C06", "C07", "C08", "C09", "C11", "C13", "C14", "C15", "C17"}
+MIRROR_NOTE = "; differential release-build mirror (a stride of every debug run of the driver is replayed on the release build, the two records must be identical)"
+
 NOT_YET = "check not built yet in this round (work in progress; see DESIGN.md for the planned monitor)"
 
 
@@ -186,7 +189,7 @@ def main():
                 "engine": "dmntk-verif-driver",
                 "level_claimed": {"category": c["category"], "text": c["text"], "design_ref": c.get("design_ref", "DESIGN.md §3")},
                 "level_note": c["note"],
-                "technique": c["technique"],
+                "technique": c["technique"] + (MIRROR_NOTE if pid in MIRRORED else ""),
             }
         )
     manifest = {
